@@ -197,7 +197,18 @@ def run_real_full(sessions, nworkers=None, timeout=900):
     return run_real(sessions, nworkers, timeout, full=True)
 
 
-def run_real(sessions, nworkers=None, timeout=900, full=False):
+def _limit_memory():
+    """workers of the real pipeline get 24 GiB of address space: a program that recurses without end dies of it with a Go runtime
+    message (an observation with a cause) instead of taking the machine's memory and the neighbouring processes with it"""
+    import resource
+    lim = 24 << 30
+    try:
+        resource.setrlimit(resource.RLIMIT_AS, (lim, lim))
+    except Exception:
+        pass
+
+
+def run_real(sessions, nworkers=None, timeout=900, full=False, _retry=False):
     """sessions: list of dicts for `vh run`.  Returns {id: [obs...]}.  A worker that dies is
     restarted after the session it was working on, which is recorded as kind 'crash'."""
     vh = build_harness()
@@ -215,7 +226,7 @@ def run_real(sessions, nworkers=None, timeout=900, full=False):
     pending = []
     for i, (ch, inp) in enumerate(procs):
         outp = os.path.join(d, "out%d" % i)
-        pending.append((ch, inp, outp, subprocess.Popen([vh, "run"], stdin=open(inp), stdout=open(outp, "w"),
+        pending.append((ch, inp, outp, subprocess.Popen([vh, "run"], stdin=open(inp), stdout=open(outp, "w"), preexec_fn=_limit_memory,
                                                         stderr=subprocess.PIPE, env=dict(os.environ, TMPDIR=d))))
     deadline = time.time() + timeout
     for ch, inp, outp, p in pending:
@@ -239,7 +250,17 @@ def run_real(sessions, nworkers=None, timeout=900, full=False):
             if rest:
                 dead = rest[0]
                 crash = [{"kind": "crash", "exit": p.returncode, "stderr": (err or b"").decode(errors="replace")[-400:]}]
-                results[dead["id"]] = {"id": dead["id"], "res": crash} if full else crash
+                if not _retry:
+                    # a worker can also die of what happens around it (the kernel's out-of-memory killer picks the largest process): the
+                    # session it was working on is run once more on its own; only a second death is an observation about that session
+                    alone = run_real([dead], nworkers=1, timeout=max(60, deadline - time.time()), full=full, _retry=True)
+                    one = alone.get(dead["id"])
+                    res1 = (one or {}).get("res") if full else one
+                    if res1 and res1[0].get("kind") != "crash":
+                        crash = None
+                        results[dead["id"]] = one
+                if crash:
+                    results[dead["id"]] = {"id": dead["id"], "res": crash} if full else crash
                 if len(rest) > 1:
                     results.update(run_real(rest[1:], nworkers=1, timeout=max(30, deadline - time.time()), full=full))
     shutil.rmtree(d, ignore_errors=True)
